@@ -1,1 +1,748 @@
-// harnesses for this module (included by the isomer_erbium_verif hook)
+// Kani harnesses for crates/erbium-core/src/radv/mod.rs (C17: router advertisements carry exactly the configured
+// values in RFC format).  Every harness builds an interface configuration of CONCRETE SHAPE (which options, how many
+// prefixes/servers/domains, string lengths) with SYMBOLIC VALUES, runs the real private builder
+// RaAdvService::build_announcement_pure and the real encoder icmppkt::serialise, and decodes the bytes with the
+// decoder below, written from RFC 4861 4.2/4.6, RFC 8106 5, RFC 8781 4 and RFC 8910 2.3 (not erbium's parser).
+#[cfg(kani)]
+mod k {
+    use super::super::*;
+    use config::ConfigValue;
+    use std::net::{IpAddr, Ipv4Addr, Ipv6Addr};
+    use std::time::Duration;
+
+    // ---------------------------------------------------------------- RFC decoder (independent of erbium's) ----
+    fn be16(b: &[u8], o: usize) -> u16 {
+        ((b[o] as u16) << 8) | b[o + 1] as u16
+    }
+    fn be32(b: &[u8], o: usize) -> u32 {
+        ((b[o] as u32) << 24) | ((b[o + 1] as u32) << 16) | ((b[o + 2] as u32) << 8) | b[o + 3] as u32
+    }
+    fn be128(b: &[u8], o: usize) -> u128 {
+        let mut v = 0u128;
+        let mut i = 0;
+        while i < 16 {
+            v = (v << 8) | b[o + i] as u128;
+            i += 1;
+        }
+        v
+    }
+    fn mask6(len: u8) -> u128 {
+        if len == 0 { 0 } else if len >= 128 { u128::MAX } else { u128::MAX << (128 - len as u32) }
+    }
+
+    // RFC 4861 4.2 + 4.6: fixed 16-octet header (type 134, code 0), then options <type, length in units of 8 octets,
+    // length != 0>, which must tile the message exactly.  Returns the number of options.
+    fn check_framing(b: &[u8]) -> usize {
+        assert!(b.len() >= 16 && b.len() % 8 == 0, "message length is a multiple of 8 octets (>= 16)");
+        assert!(b[0] == 134 && b[1] == 0, "ICMPv6 type 134, code 0");
+        let mut off = 16;
+        let mut n = 0;
+        while off < b.len() {
+            assert!(off + 2 <= b.len(), "option header inside the message");
+            let l = b[off + 1] as usize;
+            assert!(l != 0, "option length is never 0 (RFC 4861 4.6)");
+            assert!(off + 8 * l <= b.len(), "option lies inside the message");
+            off += 8 * l;
+            n += 1;
+        }
+        assert!(off == b.len(), "options tile the message exactly");
+        n
+    }
+
+    // offset of the nth option of type `ty`, if any (call check_framing first)
+    fn find_opt(b: &[u8], ty: u8, nth: usize) -> Option<usize> {
+        let mut off = 16;
+        let mut seen = 0;
+        while off + 2 <= b.len() {
+            let l = b[off + 1] as usize;
+            if l == 0 {
+                return None;
+            }
+            if b[off] == ty {
+                if seen == nth {
+                    return Some(off);
+                }
+                seen += 1;
+            }
+            off += 8 * l;
+        }
+        None
+    }
+
+    fn count_opt(b: &[u8], ty: u8) -> usize {
+        let mut off = 16;
+        let mut seen = 0;
+        while off + 2 <= b.len() {
+            let l = b[off + 1] as usize;
+            if l == 0 {
+                return seen;
+            }
+            if b[off] == ty {
+                seen += 1;
+            }
+            off += 8 * l;
+        }
+        seen
+    }
+
+    // a 32-bit seconds field: representable values exactly, larger ones clamped to 0xffffffff (= infinity).
+    // (a macro so that the check descriptions stay string literals)
+    macro_rules! check_u32_secs {
+        ($got:expr, $want:expr, $exact:literal, $clamp:literal) => {
+            if $want <= u32::MAX as u64 {
+                assert!($got as u64 == $want, $exact);
+            } else {
+                assert!($got == u32::MAX, $clamp);
+            }
+        };
+    }
+
+    // ---------------------------------------------------------------- configuration builders -------------------
+    fn top(dns_servers: Vec<IpAddr>, dns_search: Vec<String>, captive_portal: Option<String>) -> crate::config::Config {
+        crate::config::Config {
+            #[cfg(feature = "dhcp")]
+            dhcp: crate::dhcp::config::Config { policies: Vec::new() },
+            ra: config::Config { interfaces: Vec::new() },
+            dns_servers,
+            dns_search,
+            captive_portal,
+            addresses: Vec::new(),
+            listeners: Vec::new(),
+            dns_listeners: crate::config::AddressType::BindInterface,
+            #[cfg(feature = "dns")]
+            dns_routes: Vec::new(),
+            acls: Vec::new(),
+        }
+    }
+
+    // an interface that emits no option at all (everything optional suppressed with `null`)
+    fn quiet() -> config::Interface {
+        config::Interface {
+            name: String::new(),
+            hoplimit: 0,
+            managed: false,
+            other: false,
+            max_rtr_adv_interval: ConfigValue::NotSpecified,
+            min_rtr_adv_interval: ConfigValue::NotSpecified,
+            lifetime: ConfigValue::NotSpecified,
+            reachable: Duration::from_secs(0),
+            retrans: Duration::from_secs(0),
+            mtu: ConfigValue::NotSpecified,
+            prefixes: Vec::new(),
+            rdnss_lifetime: ConfigValue::NotSpecified,
+            rdnss: ConfigValue::DontSet,
+            dnssl_lifetime: ConfigValue::NotSpecified,
+            dnssl: ConfigValue::DontSet,
+            captive_portal: ConfigValue::DontSet,
+            pref64: None,
+        }
+    }
+
+    // tri-state with symbolic state: returns (config value, the Duration a reader of the config expects)
+    fn any_tri(v: Duration, dflt: Duration) -> (ConfigValue<Duration>, Duration) {
+        match kani::any::<u8>() % 3 {
+            0 => (ConfigValue::NotSpecified, dflt),
+            1 => (ConfigValue::DontSet, dflt),
+            _ => (ConfigValue::Value(v), v),
+        }
+    }
+
+    fn emit(
+        conf: &crate::config::Config,
+        intf: &config::Interface,
+        ll: Option<[u8; 6]>,
+        mtu: Option<u32>,
+        self6: Ipv6Addr,
+        lifetime: Duration,
+    ) -> Vec<u8> {
+        let adv = RaAdvService::build_announcement_pure(conf, intf, ll, mtu, self6, lifetime);
+        let msg = icmppkt::Icmp6::RtrAdvert(adv);
+        let b = icmppkt::serialise(&msg);
+        std::mem::forget(msg);
+        b
+    }
+
+    // ---------------------------------------------------------------- header ------------------------------------
+    /// VERIF: {"p":"C17","tier":"quick","fns":["radv::RaAdvService::build_announcement_pure","radv::icmppkt::serialise","radv::icmppkt::serialise_router_advertisement"],"bounds":"interface with every option suppressed; hop limit (all 256), managed/other flags, router lifetime tri-state NotSpecified/DontSet/Value(v) with v = any whole number of seconds 0..2^64-1, computed default lifetime 0..=9000 s: all symbolic","oracle":"RFC 4861 4.2 decode: 16-octet message, type 134 code 0, Cur Hop Limit, M bit 0x80, O bit 0x40, 6 reserved flag bits zero, Router Lifetime = configured seconds (or the default when not a Value); a lifetime > 65535 s must be clamped (65535 or the RFC maximum 9000), never wrapped","covers":3,"unwind":20}
+    #[kani::proof]
+    #[kani::unwind(20)]
+    fn c17_header_flags_hoplimit_router_lifetime() {
+        let hop: u8 = kani::any();
+        let managed: bool = kani::any();
+        let other: bool = kani::any();
+        let v: u64 = kani::any();
+        let dflt: u64 = kani::any();
+        kani::assume(dflt <= 9000);
+        let (tri, want) = any_tri(Duration::from_secs(v), Duration::from_secs(dflt));
+        let conf = top(Vec::new(), Vec::new(), None);
+        let mut intf = quiet();
+        intf.hoplimit = hop;
+        intf.managed = managed;
+        intf.other = other;
+        intf.lifetime = tri;
+        let b = emit(&conf, &intf, None, None, Ipv6Addr::UNSPECIFIED, Duration::from_secs(dflt));
+        let n = check_framing(&b);
+        assert!(n == 0 && b.len() == 16, "no option configured: bare 16-octet header");
+        assert!(b[4] == hop, "Cur Hop Limit == configured hop-limit");
+        assert!((b[5] & 0x80 != 0) == managed, "M flag == managed");
+        assert!((b[5] & 0x40 != 0) == other, "O flag == other");
+        assert!(b[5] & 0x3f == 0, "reserved flag bits are zero");
+        let got = be16(&b, 6) as u64;
+        let want = want.as_secs();
+        kani::cover!(want > 0xffff, "lifetime not representable in 16 bits");
+        kani::cover!(want == 9000 && managed && !other, "representable lifetime");
+        kani::cover!(matches!(intf.lifetime, ConfigValue::DontSet), "null lifetime");
+        if want <= 0xffff {
+            assert!(got == want, "Router Lifetime representable in 16 bits is encoded exactly");
+        } else {
+            assert!(got == 0xffff || got == 9000, "Router Lifetime above 65535 s is clamped, never silently wrapped");
+        }
+        std::mem::forget(b);
+        std::mem::forget(intf);
+        std::mem::forget(conf);
+    }
+
+    /// VERIF: {"p":"C17","tier":"quick","fns":["radv::RaAdvService::build_announcement_pure","radv::icmppkt::serialise","radv::icmppkt::serialise_router_advertisement"],"bounds":"interface with every option suppressed; reachable and retransmit = any whole number of seconds 0..2^64-1 (the configuration parser only produces whole seconds)","oracle":"RFC 4861 4.2: Reachable Time and Retrans Timer are 32-bit millisecond fields = configured value * 1000; a value above 2^32-1 ms must be clamped (2^32-1, or 3,600,000 ms for Reachable Time, RFC 4861 6.2.1), never wrapped","covers":2,"unwind":20}
+    #[kani::proof]
+    #[kani::unwind(20)]
+    fn c17_header_reachable_retrans() {
+        let reach: u64 = kani::any();
+        let retr: u64 = kani::any();
+        let conf = top(Vec::new(), Vec::new(), None);
+        let mut intf = quiet();
+        intf.reachable = Duration::from_secs(reach);
+        intf.retrans = Duration::from_secs(retr);
+        let b = emit(&conf, &intf, None, None, Ipv6Addr::UNSPECIFIED, Duration::from_secs(0));
+        let n = check_framing(&b);
+        assert!(n == 0 && b.len() == 16, "no option configured: bare 16-octet header");
+        let want_reach = reach as u128 * 1000;
+        let want_retr = retr as u128 * 1000;
+        kani::cover!(want_reach > u32::MAX as u128, "reachable time beyond 32 bits of ms");
+        kani::cover!(want_reach == 30_000 && want_retr == 1000, "typical values");
+        if want_reach <= u32::MAX as u128 {
+            assert!(be32(&b, 8) as u128 == want_reach, "Reachable Time representable in 32 bits of ms is encoded exactly");
+        } else {
+            assert!(be32(&b, 8) == u32::MAX || be32(&b, 8) == 3_600_000, "Reachable Time above 2^32-1 ms is clamped, never silently wrapped");
+        }
+        if want_retr <= u32::MAX as u128 {
+            assert!(be32(&b, 12) as u128 == want_retr, "Retrans Timer representable in 32 bits of ms is encoded exactly");
+        } else {
+            assert!(be32(&b, 12) == u32::MAX, "Retrans Timer above 2^32-1 ms is clamped, never silently wrapped");
+        }
+        std::mem::forget(b);
+        std::mem::forget(intf);
+        std::mem::forget(conf);
+    }
+
+    // ---------------------------------------------------------------- source link-layer address + MTU ---------
+    fn sllao_mtu(with_ll: bool, with_mtu: bool) {
+        let ll: [u8; 6] = kani::any();
+        let mtu: u32 = kani::any();
+        let conf = top(Vec::new(), Vec::new(), None);
+        let intf = quiet();
+        let b = emit(
+            &conf,
+            &intf,
+            if with_ll { Some(ll) } else { None },
+            if with_mtu { Some(mtu) } else { None },
+            Ipv6Addr::UNSPECIFIED,
+            Duration::from_secs(0),
+        );
+        let n = check_framing(&b);
+        assert!(n == with_ll as usize + with_mtu as usize, "exactly the configured options are present");
+        match find_opt(&b, 1, 0) {
+            Some(o) => {
+                assert!(with_ll, "source link-layer option only when the interface has an address");
+                assert!(b[o + 1] == 1, "ethernet SLLAO is 8 octets (RFC 4861 4.6.1)");
+                let mut i = 0;
+                while i < 6 {
+                    assert!(b[o + 2 + i] == ll[i], "SLLAO carries the interface's link-layer address");
+                    i += 1;
+                }
+            }
+            None => assert!(!with_ll, "source link-layer option present"),
+        }
+        match find_opt(&b, 5, 0) {
+            Some(o) => {
+                assert!(with_mtu, "MTU option only when an MTU is to be advertised");
+                assert!(b[o + 1] == 1, "MTU option length 1 (RFC 4861 4.6.4)");
+                assert!(be16(&b, o + 2) == 0, "MTU option reserved field zero");
+                assert!(be32(&b, o + 4) == mtu, "MTU == configured MTU");
+            }
+            None => assert!(!with_mtu, "MTU option present"),
+        }
+        std::mem::forget(b);
+        std::mem::forget(intf);
+        std::mem::forget(conf);
+    }
+
+    /// VERIF: {"p":"C17","tier":"quick","fns":["radv::RaAdvService::build_announcement_pure","radv::icmppkt::serialise","radv::icmppkt::serialise_router_advertisement"],"bounds":"shapes {lladdr+MTU, lladdr only, MTU only (mtu: null for the other)}; 6 link-layer octets and the 32-bit MTU symbolic; all other options suppressed","oracle":"RFC 4861 4.6.1/4.6.4 decode: options present exactly as configured, SLLAO = the 6 octets, MTU option reserved 0 and MTU value exact; framing (multiples of 8, options tile the message)","covers":1,"unwind":20}
+    #[kani::proof]
+    #[kani::unwind(20)]
+    fn c17_sllao_and_mtu_options() {
+        match kani::any::<u8>() % 3 {
+            0 => sllao_mtu(true, true),
+            1 => sllao_mtu(true, false),
+            _ => sllao_mtu(false, true),
+        }
+        kani::cover!(true, "reached");
+    }
+
+    // ---------------------------------------------------------------- prefix information ------------------------
+    struct P {
+        addr: u128,
+        len: u8,
+        onlink: bool,
+        auto: bool,
+        valid: u64,
+        pref: u64,
+    }
+    fn any_p() -> P {
+        let p = P { addr: kani::any(), len: kani::any(), onlink: kani::any(), auto: kani::any(), valid: kani::any(), pref: kani::any() };
+        kani::assume(p.len <= 128);
+        p
+    }
+    fn cfg_p(p: &P) -> config::Prefix {
+        config::Prefix {
+            addr: Ipv6Addr::from(p.addr),
+            prefixlen: p.len,
+            onlink: p.onlink,
+            autonomous: p.auto,
+            valid: Duration::from_secs(p.valid),
+            preferred: Duration::from_secs(p.pref),
+        }
+    }
+    // RFC 4861 4.6.2 decode of the prefix information option at offset o
+    fn check_prefix(b: &[u8], o: usize, p: &P) {
+        assert!(b[o] == 3 && b[o + 1] == 4, "prefix information option: type 3, length 4");
+        assert!(b[o + 2] == p.len, "Prefix Length == configured length");
+        assert!((b[o + 3] & 0x80 != 0) == p.onlink, "L flag == on-link");
+        assert!((b[o + 3] & 0x40 != 0) == p.auto, "A flag == autonomous");
+        assert!(b[o + 3] & 0x3f == 0, "prefix option Reserved1 zero");
+        check_u32_secs!(be32(b, o + 4), p.valid, "Valid Lifetime representable in 32 bits is encoded exactly", "Valid Lifetime above 2^32-1 s is clamped to 0xffffffff, never silently wrapped");
+        check_u32_secs!(be32(b, o + 8), p.pref, "Preferred Lifetime representable in 32 bits is encoded exactly", "Preferred Lifetime above 2^32-1 s is clamped to 0xffffffff, never silently wrapped");
+        assert!(be32(b, o + 12) == 0, "prefix option Reserved2 zero");
+        let got = be128(b, o + 16);
+        assert!(got & mask6(p.len) == p.addr & mask6(p.len), "prefix bits within the prefix length == configured prefix");
+        assert!(got & !mask6(p.len) == 0, "prefix bits beyond the prefix length are zero (RFC 4861 4.6.2)");
+    }
+
+    /// VERIF: {"p":"C17","tier":"quick","fns":["radv::RaAdvService::build_announcement_pure","radv::icmppkt::serialise","radv::icmppkt::serialise_router_advertisement"],"bounds":"one prefix: all 2^128 addresses (host bits free, as the configuration parser stores them unmasked), prefix length 0..=128, on-link/autonomous flags, valid and preferred lifetimes any whole seconds 0..2^64-1: all symbolic; other options suppressed","oracle":"RFC 4861 4.6.2 decode: type 3 length 4, prefix length, L/A flags, Reserved1/Reserved2 zero, lifetimes exact or clamped to 0xffffffff (never wrapped), prefix bits equal inside the length and zero beyond it","covers":3,"unwind":20}
+    #[kani::proof]
+    #[kani::unwind(20)]
+    fn c17_prefix_option_one() {
+        let p = any_p();
+        let conf = top(Vec::new(), Vec::new(), None);
+        let mut intf = quiet();
+        intf.prefixes.push(cfg_p(&p));
+        let b = emit(&conf, &intf, None, None, Ipv6Addr::UNSPECIFIED, Duration::from_secs(0));
+        let n = check_framing(&b);
+        assert!(n == 1 && b.len() == 48, "exactly one 32-octet option");
+        kani::cover!(p.valid > u32::MAX as u64, "valid lifetime beyond 32 bits");
+        kani::cover!(p.addr & !mask6(p.len) != 0, "configured prefix has host bits set");
+        kani::cover!(p.len == 64 && p.valid == 2592000 && p.pref == 604800, "typical prefix");
+        match find_opt(&b, 3, 0) {
+            Some(o) => check_prefix(&b, o, &p),
+            None => assert!(false, "configured prefix is advertised"),
+        }
+        std::mem::forget(b);
+        std::mem::forget(intf);
+        std::mem::forget(conf);
+    }
+
+    /// VERIF: {"p":"C17","tier":"quick","fns":["radv::RaAdvService::build_announcement_pure","radv::icmppkt::serialise","radv::icmppkt::serialise_router_advertisement"],"bounds":"two prefixes, every field of both symbolic as in c17_prefix_option_one but lifetimes restricted to 0..2^32-1 s and addresses already masked to their length (the out-of-range cases are c17_prefix_option_one's); with link-layer address and MTU options in front","oracle":"both prefixes decoded at their own option, in configuration order, each field exact; framing","covers":1,"unwind":20}
+    #[kani::proof]
+    #[kani::unwind(20)]
+    fn c17_prefix_option_two() {
+        let p0 = any_p();
+        let p1 = any_p();
+        kani::assume(p0.valid <= u32::MAX as u64 && p0.pref <= u32::MAX as u64 && p0.addr & !mask6(p0.len) == 0);
+        kani::assume(p1.valid <= u32::MAX as u64 && p1.pref <= u32::MAX as u64 && p1.addr & !mask6(p1.len) == 0);
+        let conf = top(Vec::new(), Vec::new(), None);
+        let mut intf = quiet();
+        intf.prefixes.push(cfg_p(&p0));
+        intf.prefixes.push(cfg_p(&p1));
+        let b = emit(&conf, &intf, Some(kani::any()), Some(kani::any()), Ipv6Addr::UNSPECIFIED, Duration::from_secs(0));
+        let n = check_framing(&b);
+        assert!(n == 4 && count_opt(&b, 3) == 2, "lladdr, MTU and exactly two prefix options");
+        match (find_opt(&b, 3, 0), find_opt(&b, 3, 1)) {
+            (Some(o0), Some(o1)) => {
+                check_prefix(&b, o0, &p0);
+                check_prefix(&b, o1, &p1);
+                kani::cover!(p0.len != p1.len, "two different prefixes");
+            }
+            _ => assert!(false, "both configured prefixes are advertised"),
+        }
+        std::mem::forget(b);
+        std::mem::forget(intf);
+        std::mem::forget(conf);
+    }
+
+    // ---------------------------------------------------------------- RDNSS (RFC 8106 5.1) ----------------------
+    const DEFAULT_DNS_LIFETIME: u64 = 1800; // RFC 8106 5.1: 3 * MaxRtrAdvInterval (600 s)
+
+    // decode the RDNSS option at o: `n` addresses expected
+    fn check_rdnss<const N: usize>(b: &[u8], o: usize, want: [u128; N], configured: [u128; N], lifetime: u64) {
+        assert!(b[o] == 25 && b[o + 1] as usize == 1 + 2 * N, "RDNSS option: type 25, length 1 + 2 * number of addresses");
+        assert!(be16(b, o + 2) == 0, "RDNSS reserved field zero");
+        check_u32_secs!(be32(b, o + 4), lifetime, "RDNSS Lifetime representable in 32 bits is encoded exactly", "RDNSS Lifetime above 2^32-1 s is clamped to 0xffffffff, never silently wrapped");
+        let mut i = 0;
+        while i < N {
+            let got = be128(b, o + 8 + 16 * i);
+            if configured[i] != 0 {
+                assert!(got == want[i], "RDNSS address == configured address, in order");
+            } else {
+                assert!(got == want[i], "$self6 (::) in the server list is replaced by the interface address");
+            }
+            i += 1;
+        }
+    }
+
+    fn rdnss_intf<const N: usize>() {
+        let a: [u128; N] = kani::any();
+        let self6: u128 = kani::any();
+        kani::assume(self6 != 0);
+        let lt: u64 = kani::any();
+        let (tri, want_lt) = any_tri(Duration::from_secs(lt), Duration::from_secs(DEFAULT_DNS_LIFETIME));
+        // top-level servers exist but the interface-level list overrides them
+        let conf = top(vec![IpAddr::V6(Ipv6Addr::from(kani::any::<u128>()))], Vec::new(), None);
+        let mut intf = quiet();
+        let mut v = Vec::with_capacity(N);
+        let mut want = [0u128; N];
+        let mut i = 0;
+        while i < N {
+            v.push(Ipv6Addr::from(a[i]));
+            want[i] = if a[i] == 0 { self6 } else { a[i] };
+            i += 1;
+        }
+        intf.rdnss = ConfigValue::Value(v);
+        intf.rdnss_lifetime = tri;
+        let b = emit(&conf, &intf, None, None, Ipv6Addr::from(self6), Duration::from_secs(0));
+        let n = check_framing(&b);
+        assert!(n == 1 && count_opt(&b, 25) == 1, "exactly one RDNSS option");
+        match find_opt(&b, 25, 0) {
+            Some(o) => check_rdnss::<N>(&b, o, want, a, want_lt.as_secs()),
+            None => assert!(false, "configured DNS servers are advertised"),
+        }
+        std::mem::forget(b);
+        std::mem::forget(intf);
+        std::mem::forget(conf);
+    }
+
+    /// VERIF: {"p":"C17","tier":"quick","fns":["radv::RaAdvService::build_announcement_pure","radv::icmppkt::serialise","radv::icmppkt::serialise_router_advertisement"],"bounds":"interface-level dns-servers.addresses with 1 or 2 addresses (all 2^128 values each, including :: = $self6, which erbium.conf(5) documents as usable here), interface address any non-zero value, dns-servers.lifetime tri-state with any whole seconds 0..2^64-1; a top-level server is configured too and must be overridden","oracle":"RFC 8106 5.1 decode: type 25, length 1+2n, reserved 0, lifetime exact or clamped to 0xffffffff (default 1800 s when not a Value), addresses in order with :: replaced by the interface address","covers":2,"unwind":20}
+    #[kani::proof]
+    #[kani::unwind(20)]
+    fn c17_rdnss_interface_level() {
+        if kani::any() {
+            rdnss_intf::<1>();
+            kani::cover!(true, "one server");
+        } else {
+            rdnss_intf::<2>();
+            kani::cover!(true, "two servers");
+        }
+    }
+
+    /// VERIF: {"p":"C17","tier":"quick","fns":["radv::RaAdvService::build_announcement_pure","radv::icmppkt::serialise","radv::icmppkt::serialise_router_advertisement"],"bounds":"interface dns-servers not specified; top-level dns-servers = [IPv4 (symbolic), IPv6 a, IPv6 b] with a, b any of 2^128 values (:: = $self6), interface address non-zero symbolic, interface-level lifetime tri-state symbolic","oracle":"RFC 8106 5.1 decode: one RDNSS option with exactly the two IPv6 servers in order, :: replaced by the interface address; the IPv4 server is not advertised","covers":2,"unwind":20}
+    #[kani::proof]
+    #[kani::unwind(20)]
+    fn c17_rdnss_top_level_default() {
+        let a: [u128; 2] = kani::any();
+        let self6: u128 = kani::any();
+        kani::assume(self6 != 0);
+        let lt: u64 = kani::any();
+        let (tri, want_lt) = any_tri(Duration::from_secs(lt), Duration::from_secs(DEFAULT_DNS_LIFETIME));
+        let conf = top(
+            vec![IpAddr::V4(Ipv4Addr::from(kani::any::<u32>())), IpAddr::V6(Ipv6Addr::from(a[0])), IpAddr::V6(Ipv6Addr::from(a[1]))],
+            Vec::new(),
+            None,
+        );
+        let mut intf = quiet();
+        intf.rdnss = ConfigValue::NotSpecified;
+        intf.rdnss_lifetime = tri;
+        let b = emit(&conf, &intf, None, None, Ipv6Addr::from(self6), Duration::from_secs(0));
+        let n = check_framing(&b);
+        assert!(n == 1 && count_opt(&b, 25) == 1, "exactly one RDNSS option");
+        let want = [if a[0] == 0 { self6 } else { a[0] }, if a[1] == 0 { self6 } else { a[1] }];
+        kani::cover!(a[0] == 0 && a[1] != 0, "$self6 first");
+        kani::cover!(a[0] != 0 && a[1] != 0, "two literal servers");
+        match find_opt(&b, 25, 0) {
+            Some(o) => check_rdnss::<2>(&b, o, want, a, want_lt.as_secs()),
+            None => assert!(false, "top-level DNS servers are advertised by default"),
+        }
+        std::mem::forget(b);
+        std::mem::forget(intf);
+        std::mem::forget(conf);
+    }
+
+    /// VERIF: {"p":"C17","tier":"quick","fns":["radv::RaAdvService::build_announcement_pure","radv::icmppkt::serialise","radv::icmppkt::serialise_router_advertisement"],"bounds":"interface dns-servers.addresses: null (DontSet) and dns-search.domains: null, captive-portal: null, while the top level configures two IPv6 servers (symbolic), a search domain and a portal URL","oracle":"`null` suppresses the option: no RDNSS (25), DNSSL (31) or captive-portal (37) option; bare 16-octet header","covers":1,"unwind":20}
+    #[kani::proof]
+    #[kani::unwind(20)]
+    fn c17_null_suppresses_options() {
+        let conf = top(
+            vec![IpAddr::V6(Ipv6Addr::from(kani::any::<u128>())), IpAddr::V6(Ipv6Addr::from(kani::any::<u128>()))],
+            vec![String::from("a.bc")],
+            Some(String::from("http://x/")),
+        );
+        let mut intf = quiet();
+        intf.rdnss_lifetime = ConfigValue::Value(Duration::from_secs(kani::any()));
+        intf.dnssl_lifetime = ConfigValue::Value(Duration::from_secs(kani::any()));
+        let b = emit(&conf, &intf, None, None, Ipv6Addr::from(kani::any::<u128>()), Duration::from_secs(0));
+        let n = check_framing(&b);
+        assert!(count_opt(&b, 25) == 0, "dns-servers.addresses: null suppresses RDNSS");
+        assert!(count_opt(&b, 31) == 0, "dns-search.domains: null suppresses DNSSL");
+        assert!(count_opt(&b, 37) == 0, "captive-portal: null suppresses the captive-portal option");
+        assert!(n == 0 && b.len() == 16, "nothing else is emitted");
+        kani::cover!(true, "reached");
+        std::mem::forget(b);
+        std::mem::forget(intf);
+        std::mem::forget(conf);
+    }
+
+    /// VERIF: {"p":"C17","tier":"quick","fns":["radv::RaAdvService::build_announcement_pure","radv::icmppkt::serialise","radv::icmppkt::serialise_router_advertisement"],"bounds":"no IPv6 DNS server to advertise: (a) interface dns-servers not specified and top-level dns-servers = [one IPv4 address (symbolic)], (b) top-level list empty, (c) interface-level addresses: [] ; other options suppressed","oracle":"RFC 8106 5.1 / 5.3.1: an RDNSS option carries at least one address (Length >= 3, hosts treat a smaller Length as invalid) - with no server configured no RDNSS option is sent","covers":1,"unwind":20}
+    #[kani::proof]
+    #[kani::unwind(20)]
+    fn c17_rdnss_absent_without_servers() {
+        let sel = kani::any::<u8>() % 3;
+        let conf = if sel == 0 { top(vec![IpAddr::V4(Ipv4Addr::from(kani::any::<u32>()))], Vec::new(), None) } else { top(Vec::new(), Vec::new(), None) };
+        let mut intf = quiet();
+        intf.rdnss = if sel == 2 { ConfigValue::Value(Vec::new()) } else { ConfigValue::NotSpecified };
+        let b = emit(&conf, &intf, None, None, Ipv6Addr::from(kani::any::<u128>()), Duration::from_secs(0));
+        check_framing(&b);
+        kani::cover!(sel == 0, "IPv4-only DNS configuration");
+        match find_opt(&b, 25, 0) {
+            Some(o) => assert!(b[o + 1] >= 3, "an RDNSS option carries at least one address (Length >= 3, RFC 8106 5.1/5.3.1)"),
+            None => {}
+        }
+        std::mem::forget(b);
+        std::mem::forget(intf);
+        std::mem::forget(conf);
+    }
+
+    // ---------------------------------------------------------------- DNSSL (RFC 8106 5.2) ---------------------
+    // Expected wire form of the domain list (RFC 1035 3.1 labels, each name ends with the zero label, zero padding
+    // to a multiple of 8) is written out by hand per shape.
+    fn check_dnssl(b: &[u8], o: usize, names: &[u8], lifetime: u64) {
+        let padded = (names.len() + 7) / 8 * 8;
+        assert!(b[o] == 31 && b[o + 1] as usize == 1 + padded / 8, "DNSSL option: type 31, length 1 + ceil(names/8)");
+        assert!(be16(b, o + 2) == 0, "DNSSL reserved field zero");
+        check_u32_secs!(be32(b, o + 4), lifetime, "DNSSL Lifetime representable in 32 bits is encoded exactly", "DNSSL Lifetime above 2^32-1 s is clamped to 0xffffffff, never silently wrapped");
+        let mut i = 0;
+        while i < padded {
+            let want = if i < names.len() { names[i] } else { 0 };
+            assert!(b[o + 8 + i] == want, "DNSSL names: RFC 1035 labels in configuration order, zero padded");
+            i += 1;
+        }
+    }
+
+    /// VERIF: {"p":"C17","tier":"quick","fns":["radv::RaAdvService::build_announcement_pure","radv::icmppkt::serialise","radv::icmppkt::serialise_router_advertisement"],"bounds":"search list shapes: interface-level [\"a.bc\",\"de\"] (top level has another list that must be overridden) and interface not specified -> top-level [\"x.yz\"]; dns-search.lifetime tri-state with any whole seconds 0..2^64-1","oracle":"RFC 8106 5.2 decode: type 31, length, reserved 0, lifetime exact or clamped (default 1800 s), names = 01 a 02 b c 00 02 d e 00 (+6 zero octets) resp. 01 x 02 y z 00 (+2 zero octets)","covers":2,"unwind":24}
+    #[kani::proof]
+    #[kani::unwind(24)]
+    fn c17_dnssl_option() {
+        let lt: u64 = kani::any();
+        let (tri, want_lt) = any_tri(Duration::from_secs(lt), Duration::from_secs(DEFAULT_DNS_LIFETIME));
+        let conf = top(Vec::new(), vec![String::from("x.yz")], None);
+        let mut intf = quiet();
+        intf.dnssl_lifetime = tri;
+        let interface_level: bool = kani::any();
+        if interface_level {
+            intf.dnssl = ConfigValue::Value(vec![String::from("a.bc"), String::from("de")]);
+        } else {
+            intf.dnssl = ConfigValue::NotSpecified;
+        }
+        let b = emit(&conf, &intf, None, None, Ipv6Addr::UNSPECIFIED, Duration::from_secs(0));
+        let n = check_framing(&b);
+        assert!(n == 1 && count_opt(&b, 31) == 1, "exactly one DNSSL option");
+        kani::cover!(interface_level && want_lt.as_secs() > u32::MAX as u64, "lifetime beyond 32 bits");
+        kani::cover!(!interface_level, "top-level default list");
+        match find_opt(&b, 31, 0) {
+            Some(o) => {
+                if interface_level {
+                    check_dnssl(&b, o, &[1, b'a', 2, b'b', b'c', 0, 2, b'd', b'e', 0], want_lt.as_secs());
+                } else {
+                    check_dnssl(&b, o, &[1, b'x', 2, b'y', b'z', 0], want_lt.as_secs());
+                }
+            }
+            None => assert!(false, "configured search list is advertised"),
+        }
+        std::mem::forget(b);
+        std::mem::forget(intf);
+        std::mem::forget(conf);
+    }
+
+    /// VERIF: {"p":"C17","tier":"quick","fns":["radv::RaAdvService::build_announcement_pure","radv::icmppkt::serialise","radv::icmppkt::serialise_router_advertisement"],"bounds":"no search domain configured: (a) interface dns-search not specified and top-level dns-search empty (the loader's default), (b) interface-level domains: []","oracle":"RFC 8106 5.2 / 5.3.1: a DNSSL option carries at least one domain name (Length >= 2, hosts treat a smaller Length as invalid) - with no domain configured no DNSSL option is sent","covers":1,"unwind":20}
+    #[kani::proof]
+    #[kani::unwind(20)]
+    fn c17_dnssl_absent_without_domains() {
+        let conf = top(Vec::new(), Vec::new(), None);
+        let mut intf = quiet();
+        let sel: bool = kani::any();
+        intf.dnssl = if sel { ConfigValue::Value(Vec::new()) } else { ConfigValue::NotSpecified };
+        let b = emit(&conf, &intf, None, None, Ipv6Addr::UNSPECIFIED, Duration::from_secs(0));
+        check_framing(&b);
+        kani::cover!(!sel, "default configuration");
+        match find_opt(&b, 31, 0) {
+            Some(o) => assert!(b[o + 1] >= 2, "a DNSSL option carries at least one domain name (Length >= 2, RFC 8106 5.2/5.3.1)"),
+            None => {}
+        }
+        std::mem::forget(b);
+        std::mem::forget(intf);
+        std::mem::forget(conf);
+    }
+
+    // ---------------------------------------------------------------- PREF64 (RFC 8781 4) ----------------------
+    /// VERIF: {"p":"C17","tier":"quick","fns":["radv::RaAdvService::build_announcement_pure","radv::icmppkt::serialise","radv::icmppkt::serialise_router_advertisement"],"bounds":"pref64 with prefix length in {32,40,48,56,64,96}, all 2^128 prefix values (bits beyond the length free), lifetime any whole seconds 0..2^64-1: all symbolic; other options suppressed","oracle":"RFC 8781 4 decode: type 38, length 2, PLC per table (0->96,1->64,2->56,3->48,4->40,5->32) gives the configured length, 13-bit Scaled Lifetime * 8 s = configured lifetime rounded to a multiple of 8 s (down or up) or clamped to 8191 units when above 65528 s (never wrapped), highest 96 bits of the prefix equal inside the length and zero beyond","covers":3,"unwind":20}
+    #[kani::proof]
+    #[kani::unwind(20)]
+    fn c17_pref64_option() {
+        let plen: u8 = match kani::any::<u8>() % 6 {
+            0 => 32,
+            1 => 40,
+            2 => 48,
+            3 => 56,
+            4 => 64,
+            _ => 96,
+        };
+        let prefix: u128 = kani::any();
+        let lt: u64 = kani::any();
+        let conf = top(Vec::new(), Vec::new(), None);
+        let mut intf = quiet();
+        intf.pref64 = Some(config::Pref64 { lifetime: Duration::from_secs(lt), prefix: Ipv6Addr::from(prefix), prefixlen: plen });
+        let b = emit(&conf, &intf, None, None, Ipv6Addr::UNSPECIFIED, Duration::from_secs(0));
+        let n = check_framing(&b);
+        assert!(n == 1 && b.len() == 32, "exactly one 16-octet option");
+        kani::cover!(plen == 96 && lt == 600, "the configuration erbium's own unit test uses");
+        kani::cover!(plen == 64 && lt % 8 == 0 && lt <= 65528, "/64, representable lifetime");
+        kani::cover!(lt > 65528, "lifetime beyond 13 bits of 8 s units");
+        match find_opt(&b, 38, 0) {
+            Some(o) => {
+                assert!(b[o + 1] == 2, "PREF64 option length 2");
+                let w = be16(&b, o + 2);
+                let scaled = (w >> 3) as u64;
+                let plc = w & 7;
+                let dec_len: u8 = match plc {
+                    0 => 96,
+                    1 => 64,
+                    2 => 56,
+                    3 => 48,
+                    4 => 40,
+                    5 => 32,
+                    _ => 0,
+                };
+                assert!(dec_len == plen, "Prefix Length Code decodes (RFC 8781 table) to the configured NAT64 prefix length");
+                if lt <= 65528 {
+                    assert!(scaled == lt / 8 || scaled == (lt + 7) / 8, "Scaled Lifetime * 8 s == configured lifetime (to the 8 s granularity)");
+                } else {
+                    assert!(scaled == 8191, "PREF64 lifetime above 65528 s is clamped to 8191 units, never silently wrapped");
+                }
+                // highest 96 bits of the prefix
+                let mut hi: u128 = 0;
+                let mut i = 0;
+                while i < 12 {
+                    hi = (hi << 8) | b[o + 4 + i] as u128;
+                    i += 1;
+                }
+                let got = hi << 32;
+                assert!(got & mask6(plen) == prefix & mask6(plen), "PREF64 prefix bits within the prefix length == configured prefix");
+                assert!(got & !mask6(plen) == 0, "PREF64 prefix bits beyond the prefix length are zero (RFC 8781 4)");
+            }
+            None => assert!(false, "configured NAT64 prefix is advertised"),
+        }
+        std::mem::forget(b);
+        std::mem::forget(intf);
+        std::mem::forget(conf);
+    }
+
+    // ---------------------------------------------------------------- captive portal (RFC 8910 2.3) ------------
+    fn ascii_url<const L: usize>() -> ([u8; L], String) {
+        let mut u: [u8; L] = kani::any();
+        let mut i = 0;
+        while i < L {
+            u[i] = 0x21 + (u[i] % 0x5e); // printable ASCII, never NUL
+            i += 1;
+        }
+        let s = unsafe { String::from_utf8_unchecked(u.to_vec()) };
+        (u, s)
+    }
+
+    // src: 0 = interface-level value (top level has a different one), 1 = not specified -> top-level value
+    fn portal<const L: usize>(src: u8) {
+        let (u, s) = ascii_url::<L>();
+        let conf = top(Vec::new(), Vec::new(), if src == 0 { Some(String::from("zz")) } else { Some(s.clone()) });
+        let mut intf = quiet();
+        intf.captive_portal = if src == 0 { ConfigValue::Value(s) } else { ConfigValue::NotSpecified };
+        let b = emit(&conf, &intf, None, None, Ipv6Addr::UNSPECIFIED, Duration::from_secs(0));
+        let n = check_framing(&b);
+        assert!(n == 1 && count_opt(&b, 37) == 1, "exactly one captive-portal option");
+        match find_opt(&b, 37, 0) {
+            Some(o) => {
+                let total = (2 + L + 7) / 8 * 8;
+                assert!(b[o + 1] as usize * 8 == total, "captive-portal option length = ceil((2 + URI length) / 8)");
+                let mut i = 0;
+                while i + 2 < total {
+                    let want = if i < L { u[i] } else { 0 };
+                    assert!(b[o + 2 + i] == want, "URI octets == configured URL, NUL padded (RFC 8910 2.3)");
+                    i += 1;
+                }
+            }
+            None => assert!(false, "configured captive portal is advertised"),
+        }
+        std::mem::forget(b);
+        std::mem::forget(intf);
+        std::mem::forget(conf);
+    }
+
+    /// VERIF: {"p":"C17","tier":"quick","fns":["radv::RaAdvService::build_announcement_pure","radv::icmppkt::serialise","radv::icmppkt::serialise_router_advertisement"],"bounds":"captive-portal URL of 1, 5, 6, 7, 14 or 22 printable-ASCII octets (symbolic), given at interface level (overriding a different top-level URL) or inherited from the top level","oracle":"RFC 8910 2.3 decode: type 37, length = ceil((2+len)/8), URI octets equal, NUL padding only","covers":2,"unwind":36}
+    #[kani::proof]
+    #[kani::unwind(36)]
+    fn c17_captive_portal_option() {
+        let src = kani::any::<u8>() % 2;
+        match kani::any::<u8>() % 6 {
+            0 => portal::<1>(src),
+            1 => portal::<5>(src),
+            2 => portal::<6>(src),
+            3 => portal::<7>(src),
+            4 => portal::<14>(src),
+            _ => portal::<22>(src),
+        }
+        kani::cover!(src == 0, "interface-level URL");
+        kani::cover!(src == 1, "top-level URL");
+    }
+
+    // ---------------------------------------------------------------- everything at once: framing --------------
+    /// VERIF: {"p":"C17","tier":"quick","fns":["radv::RaAdvService::build_announcement_pure","radv::icmppkt::serialise","radv::icmppkt::serialise_router_advertisement"],"bounds":"one advertisement with every option kind: lladdr, MTU, 2 prefixes, 2 RDNSS addresses, search list [\"a.bc\",\"de\"], PREF64 /64, 19-octet portal URL; addresses, MTU, flags symbolic, lifetimes symbolic within their wire ranges","oracle":"RFC 4861 4.6 framing: message and every option a multiple of 8 octets, no zero length, options tile the message; each option kind present exactly as often as configured (1,1,2,1,1,1,1)","covers":1,"unwind":36}
+    #[kani::proof]
+    #[kani::unwind(36)]
+    fn c17_all_options_framing() {
+        let conf = top(Vec::new(), Vec::new(), None);
+        let mut intf = quiet();
+        let mut p0 = any_p();
+        let mut p1 = any_p();
+        p0.valid &= 0xffff_ffff;
+        p0.pref &= 0xffff_ffff;
+        p1.valid &= 0xffff_ffff;
+        p1.pref &= 0xffff_ffff;
+        intf.prefixes.push(cfg_p(&p0));
+        intf.prefixes.push(cfg_p(&p1));
+        intf.rdnss = ConfigValue::Value(vec![Ipv6Addr::from(kani::any::<u128>()), Ipv6Addr::from(kani::any::<u128>())]);
+        intf.rdnss_lifetime = ConfigValue::Value(Duration::from_secs(kani::any::<u32>() as u64));
+        intf.dnssl = ConfigValue::Value(vec![String::from("a.bc"), String::from("de")]);
+        intf.dnssl_lifetime = ConfigValue::Value(Duration::from_secs(kani::any::<u32>() as u64));
+        intf.pref64 = Some(config::Pref64 { lifetime: Duration::from_secs(kani::any::<u16>() as u64), prefix: Ipv6Addr::from(kani::any::<u128>()), prefixlen: 64 });
+        intf.captive_portal = ConfigValue::Value(String::from("http://portal.test/"));
+        intf.hoplimit = kani::any();
+        intf.managed = kani::any();
+        intf.other = kani::any();
+        let b = emit(&conf, &intf, Some(kani::any()), Some(kani::any()), Ipv6Addr::from(kani::any::<u128>()), Duration::from_secs(kani::any::<u16>() as u64));
+        let n = check_framing(&b);
+        assert!(n == 8, "eight options");
+        assert!(count_opt(&b, 1) == 1 && count_opt(&b, 5) == 1, "one SLLAO, one MTU option");
+        assert!(count_opt(&b, 3) == 2, "two prefix options");
+        assert!(count_opt(&b, 25) == 1 && count_opt(&b, 31) == 1, "one RDNSS, one DNSSL option");
+        assert!(count_opt(&b, 38) == 1 && count_opt(&b, 37) == 1, "one PREF64, one captive-portal option");
+        assert!(b.len() == 16 + 8 + 8 + 64 + 40 + 24 + 16 + 24, "total length is the sum of the RFC option sizes");
+        kani::cover!(true, "reached");
+        std::mem::forget(b);
+        std::mem::forget(intf);
+        std::mem::forget(conf);
+    }
+}
